@@ -7,6 +7,7 @@ import TdVerif.Model.C14Seq
 import TdVerif.Lemmas.C14
 import TdVerif.Model.C14Prob
 import TdVerif.Lemmas.C14Nested
+import TdVerif.Lemmas.C14Forward
 
 namespace TdVerif.Props.C14
 open TdVerif.C14
@@ -608,6 +609,166 @@ theorem nested_keys_as_flattening (kids : List Node) (hp : PlainNodes kids) :
   · simp only [Node.outs, Option.getD_none, outKeys, nodesInOut_outs, inOutAux_outs, List.nil_append]
     have := (kidsOuts kids hp).2 [] []
     simpa using this
+
+end TdVerif.Props.C14
+
+/-! ## composite distributions: the shape of the aggregated log-probability -/
+namespace TdVerif.Props.C14
+open TdVerif.C14.Prob
+
+theorem sumShapes_const (s : Shape) : ∀ (l : List Shape), l ≠ [] → (∀ x ∈ l, x = s) → sumShapes l = some s
+  | [], h, _ => absurd rfl h
+  | [x], _, hx => by simp [sumShapes, hx x (by simp)]
+  | x :: y :: rest, _, hx => by
+    have ih := sumShapes_const s (y :: rest) (by simp) (fun z hz => hx z (List.mem_cons_of_mem _ hz))
+    simp [sumShapes, ih, hx x (by simp)]
+
+theorem reduce_head (sb ex : Shape) : reduceTo sb.length (headLp sb ex) = sb := by
+  unfold reduceTo headLp
+  split
+  · simp
+  · rename_i h
+    have : ex = [] := by
+      cases ex with
+      | nil => rfl
+      | cons a r => simp at h
+    simp [this]
+
+/-- **composite_log_prob_shape** — for any number of heads with any un-reduced feature dims, any batch shape
+and any `num_samples` prefix: the aggregated log-probability `CompositeDistribution.log_prob(sample)` and the
+aggregated entry the module writes both have exactly the batch shape of the sample tensordict (`num_samples ++ batch`),
+so `module.get_dist(params).log_prob(sample)` agrees in shape with what the module wrote. -/
+theorem composite_log_prob_shape (ns batch : Shape) (heads : List Shape) (hne : heads ≠ []) :
+    compositeLogProbShape (ns ++ batch) heads = some (ns ++ batch) ∧
+    moduleLogProbShape (ns ++ batch) heads = some (ns ++ batch) := by
+  constructor
+  · apply sumShapes_const
+    · simpa using hne
+    · intro x hx
+      obtain ⟨ex, _, rfl⟩ := List.mem_map.1 hx
+      exact reduce_head _ ex
+  · apply sumShapes_const
+    · simpa using hne
+    · intro x hx
+      obtain ⟨ex, _, rfl⟩ := List.mem_map.1 hx
+      show List.take (ns ++ batch).length (headLp (ns ++ batch) ex) = ns ++ batch
+      unfold headLp
+      exact List.take_left' rfl
+
+/-- reducing to `len(batch_shape)` dims instead (the distribution's batch, without the `num_samples` prefix) sums
+batch dims away: one head, `num_samples = 4`, batch `[3]` gives shape `[4]` where the module wrote `[4, 3]`. -/
+theorem composite_log_prob_shape_batch_counterexample :
+    compositeLogProbShapeBatch [3] ([4] ++ [3]) [[]] = some [4] ∧
+    moduleLogProbShape ([4] ++ [3]) [[]] = some [4, 3] := by
+  decide
+
+example : compositeLogProbShape [4, 3] [[], [2], [5, 2]] = some [4, 3] := by decide
+example : perHeadShapes [4, 3] [[], [2]] = [[4, 3], [4, 3, 2]] := by decide
+
+end TdVerif.Props.C14
+
+/-! ## the option variants of `TensorDictSequential.forward` (top-level keys) -/
+namespace TdVerif.Props.C14
+open TdVerif.C14
+
+/-- the modules run on a copy (`exec = some _`): the copy ends as `run` computes, the argument is untouched -/
+theorem fwdKids_plain_copy : ∀ (ms : List Mod) (a e r : Env), run ms e = some r →
+    fwdKids false (plain ms) false { arg := a, exec := some e } = .ok { arg := a, exec := some r }
+  | [], a, e, r, h => by simp [run] at h; subst h; simp [plain, fwdKids]
+  | m :: ms, a, e, r, h => by
+    obtain ⟨e', hm, hrest⟩ := run_cons_inv h
+    obtain ⟨args, ha, he⟩ := runMod_inv hm
+    have ih := fwdKids_plain_copy ms a e' r hrest
+    simp only [plain, List.map_cons] at ih ⊢
+    simp only [fwdKids, Bool.false_and, Bool.false_eq_true, if_false, Exec.cur, Option.getD_some, fwdNode, fwdMod,
+      skips, ha, applyHook, Exec.after, Out.ret, Option.getD_none, Bool.or_self, ← he]
+    exact ih
+
+/-- **forward_tensordict_out** — a sequence of plain modules called with `tensordict_out=out` (top-level keys):
+`out` is returned holding, under every advertised out_key the run produced, the computed value, and its other
+entries as they were; the input is untouched. -/
+theorem forward_tensordict_out (ms : List Mod) (arg out r : Env) (hr : run ms arg = some r)
+    (hm : ∀ m ∈ ms, FlatKeys m.outs) (ha : FlatEnv arg) (hn : KeysNodup arg) (ho : FlatEnv out) :
+    ∃ out' al, fwdSeqOut false (plain ms) none false arg out = .ok (arg, out', al) ∧
+      ∀ t, Env.get? out' [t] =
+        if [t] ∈ outKeys ms ∧ (Env.get? r [t]).isSome then Env.get? r [t] else Env.get? out [t] := by
+  obtain ⟨hf, hnd⟩ := run_inv ms arg r hm ha hn hr
+  have hk := fwdKids_plain_copy ms arg arg r hr
+  have hkeys : dedupLast (nodesInOut (plain ms) [] []).2 = outKeys ms := by
+    simp [nodesInOut_plain, outKeys]
+  have hflatK : FlatKeys (outKeys ms) := by
+    intro k hk'
+    have := ((out_keys_last_writer ms).1 k).1 hk'
+    simp only [allOuts, List.mem_flatMap] at this
+    obtain ⟨m, hm', hkm⟩ := this
+    exact hm m hm' k hkm
+  refine ⟨updKeys out r (outKeys ms), updAliases out r (outKeys ms), ?_, ?_⟩
+  · simp [fwdSeqOut, hk, Exec.cur, hkeys]
+  · intro t
+    exact updKeys_flat out r (outKeys ms) ho hf hnd hflatK t
+
+/-- **forward_inplace_false** — `TensorDictSequential(..., inplace=False)` (or `"empty"`) on plain modules: a new
+tensordict is returned that holds exactly the advertised out_keys with the computed values; *the input object has
+been run on in place* (it holds the whole result `r`: the copy is only taken with `tensordict_out` or selected out-keys). -/
+theorem forward_inplace_false (ms : List Mod) (ip : Inplace) (hip : ip ≠ .yes) (arg r : Env) (hr : run ms arg = some r)
+    (hm : ∀ m ∈ ms, FlatKeys m.outs) (ha : FlatEnv arg) (hn : KeysNodup arg) :
+    ∃ res al, fwdNode false (.seq (plain ms) (some ip) none false) arg = .ok { arg := r, fresh := some res, aliased := al } ∧
+      ∀ t, Env.get? res [t] = if [t] ∈ outKeys ms ∧ (Env.get? r [t]).isSome then Env.get? r [t] else none := by
+  obtain ⟨hf, hnd⟩ := run_inv ms arg r hm ha hn hr
+  have hk := fwdKids_plain ms arg
+  simp only [hr] at hk
+  have hkeys : dedupLast (nodesInOut (plain ms) [] []).2 = outKeys ms := by
+    simp [nodesInOut_plain, outKeys]
+  have hflatK : FlatKeys (outKeys ms) := by
+    intro k hk'
+    have := ((out_keys_last_writer ms).1 k).1 hk'
+    simp only [allOuts, List.mem_flatMap] at this
+    obtain ⟨m, hm', hkm⟩ := this
+    exact hm m hm' k hkm
+  refine ⟨updKeys [] r (outKeys ms), updAliases [] r (outKeys ms), ?_, ?_⟩
+  · cases ip with
+    | yes => exact absurd rfl hip
+    | no => simp [fwdNode, skips, hk, Exec.cur, hkeys]
+    | empty => simp [fwdNode, skips, hk, Exec.cur, hkeys]
+  · intro t
+    have := updKeys_flat [] r (outKeys ms) (fun _ h => by simp at h) hf hnd hflatK t
+    simpa [Env.get?] using this
+
+/-- **forward_selected_out_keys** — a sequence of plain modules with selected out-keys `S` (constructor argument or
+`select_out_keys`), default `inplace`: the input object is returned; it gains the computed value under every selected
+key and under every key it already had (entries overwritten during the run), and **no other key** — the unselected
+intermediate results are not added. -/
+theorem forward_selected_out_keys (ms : List Mod) (S : List Key) (arg r : Env) (hr : run ms arg = some r)
+    (hm : ∀ m ∈ ms, FlatKeys m.outs) (ha : FlatEnv arg) (hn : KeysNodup arg) (hS : FlatKeys S) :
+    ∃ res al, fwdNode false (.seq (plain ms) none (some S) false) arg = .ok { arg := res, fresh := none, aliased := al } ∧
+      ∀ t, Env.get? res [t] =
+        if ([t] ∈ S ∨ (Env.get? arg [t]).isSome) ∧ (Env.get? r [t]).isSome then Env.get? r [t] else Env.get? arg [t] := by
+  obtain ⟨hf, hnd⟩ := run_inv ms arg r hm ha hn hr
+  have hk := fwdKids_plain_copy ms arg arg r hr
+  have hflatK : FlatKeys (S ++ arg.map (·.1)) := by
+    intro k hk'
+    rcases List.mem_append.1 hk' with h | h
+    · exact hS k h
+    · obtain ⟨kv, hkv, rfl⟩ := List.mem_map.1 h; exact ha kv hkv
+  have hmemarg : ∀ t, [t] ∈ arg.map (·.1) ↔ (Env.get? arg [t]).isSome := by
+    intro t
+    have : ∀ (e : Env), ([t] ∈ e.map (·.1)) ↔ (Env.get? e [t]).isSome := by
+      intro e
+      induction e with
+      | nil => simp [Env.get?]
+      | cons y e ih =>
+        obtain ⟨k0, v0⟩ := y
+        simp only [List.map_cons, List.mem_cons, Env.get?]
+        by_cases h0 : k0 = [t]
+        · simp [h0]
+        · have : ¬ [t] = k0 := fun e => h0 e.symm
+          simp [h0, this, ih]
+    exact this arg
+  refine ⟨updKeys arg r (S ++ arg.map (·.1)), updAliases arg r (S ++ arg.map (·.1)), ?_, ?_⟩
+  · simp [fwdNode, skips, hk, Exec.cur]
+  · intro t
+    rw [updKeys_flat arg r (S ++ arg.map (·.1)) ha hf hnd hflatK t]
+    simp only [List.mem_append, hmemarg t]
 
 end TdVerif.Props.C14
 
